@@ -840,6 +840,10 @@ def rule_sync_inputs(ctx, rule='R09.13'):
 
 
 def run(ctx):
+    from . import c08 as _c08
+    _c08.rule_exit_machine(ctx)     # R08.2/R08.3: the state is synchronised before the last step is shortened
+    from . import serial as _serial
+    _serial.rule_R05_2(ctx)         # R05.2: the synchronisation flags are saved under their own name
     from . import pyrules
     pyrules.rule_internal_flags(ctx, 'R10.11')     # selecting modules never discards an unsynchronised state
     from . import c19
